@@ -7,6 +7,8 @@ import QtVerif.Model.TimeFns
   eval <now> <env…>                          → ok v <hex> <deadline hex> | ok f <unavailable|skipped|exc> <deadline hex>
   tick <now> <trig 0|1> <env…>               → ok <e|s> <hex|none>      (e = evaluated, s = skipped)
   every <now> <trig 0|1> <env…>              → same with the every-tick reference rule
+  qpass <now> <trig 0|1> <env…>              → ok <q|s>                 (a polling pass: evaluation queued / skipped)
+  qrun                                       → ok <n> <hex|none>        (the evaluation task runs the n queued contexts)
   env token: <hex> | -
 -/
 open QtVerif QtVerif.TimeFns QtVerif.Proto
@@ -14,6 +16,7 @@ open QtVerif QtVerif.TimeFns QtVerif.Proto
 structure DState where
   P : Params := {}
   st : PortSt Float := { tree := .lit none, value := none }
+  queue : List (Int × Env Float) := []
 
 def hexDigit (c : Char) : Option Nat :=
   if '0' ≤ c ∧ c ≤ '9' then some (c.toNat - '0'.toNat)
@@ -110,7 +113,7 @@ def dstep (d : DState) : List String → DState × String
     | _, _, _, _ => (d, "bad-op")
   | "expr" :: ws =>
     match parseNode 64 ws with
-    | some (n, []) => ({ d with st := { tree := n, value := none } }, "ok")
+    | some (n, []) => ({ d with st := { tree := n, value := none }, queue := [] }, "ok")
     | _ => (d, "bad-op")
   | "eval" :: now :: ws =>
     match parseInt now, parseEnv ws with
@@ -118,6 +121,16 @@ def dstep (d : DState) : List String → DState × String
       let (t', r) := evalNode d.P env now d.st.tree
       ({ d with st := { tree := t', value := applyRes d.st.value r } },
        "ok " ++ fmtRes r ++ " " ++ hexOf (deadline d.P.fixed t'))
+    | _, _ => (d, "bad-op")
+  | ["qrun"] =>
+    let st' := runQueue d.P d.st d.queue
+    ({ d with st := st', queue := [] }, "ok " ++ toString d.queue.length ++ " " ++ fmtVal st'.value)
+  | "qpass" :: now :: trig :: ws =>
+    match parseInt now, parseEnv ws with
+    | some now, some env =>
+      if trig != "0" && trig != "1" then (d, "bad-op") else
+      let q' := passStep d.P false { st := d.st, queue := d.queue } { now := now, env := env, trig := trig == "1" }
+      ({ d with queue := q'.queue }, "ok " ++ (if q'.queue.length > d.queue.length then "q" else "s"))
     | _, _ => (d, "bad-op")
   | op :: now :: trig :: ws =>
     if op != "tick" && op != "every" then (d, "bad-op") else
